@@ -219,7 +219,8 @@ namespace ratio
                 }
             }
 
-            pulses.erase(pulses.cbegin());
+            // freezing and propagating might have moved the atoms which are still to be dispatched (their pulses were computed from the previous values): we recompute the timelines (the atoms dispatched so far are not considered again)..
+            build_timelines();
         }
 
         // we update the current time..
